@@ -628,7 +628,10 @@ class Parser:
         parts: list[Any] = []
         for part in values:
             if isinstance(part, ast.Constant) and isinstance(part.value, str):
-                part.value = self._decode_fstring_text(part.value, raw)
+                try:
+                    part.value = self._decode_fstring_text(part.value, raw)
+                except (SyntaxError, ValueError) as err:  # bad escape, NUL byte: report it at the literal part
+                    self.raise_syntax_error_known_location(getattr(err, "msg", None) or str(err), part)
                 if part.value == "":
                     continue  # a part that is only a line continuation decodes to nothing
             elif isinstance(part, ast.FormattedValue):
